@@ -257,7 +257,7 @@ func vfPSMake(scn string) (func(), func(*vsched.Exec) (string, *vsched.Violation
 			// order: delivered must be a subsequence of the publish order
 			last := -1
 			for _, d := range st.delivered {
-				idx, _ := strconv.Atoi(strings.TrimLeft(d, "VFMHL03"))
+				idx := vfMarkIndex(d)
 				if idx < last {
 					viol("C07/out-of-order", fmt.Sprintf("single-worker subscriber delivered %v out of publish order", st.delivered))
 				}
@@ -280,7 +280,7 @@ func vfPSMake(scn string) (func(), func(*vsched.Exec) (string, *vsched.Violation
 				if count2[d] > 1 {
 					viol("C07/duplicate-delivery", fmt.Sprintf("message %s delivered %d times to the topicB subscription", d, count2[d]))
 				}
-				idx, _ := strconv.Atoi(strings.TrimLeft(d, "VFMHL03"))
+				idx := vfMarkIndex(d)
 				if workers == 1 && idx < last {
 					viol("C07/out-of-order", fmt.Sprintf("single-worker topicB subscription delivered %v out of publish order", st.delivered2))
 				}
@@ -371,4 +371,17 @@ func init() {
 			return 2, true
 		},
 	})
+}
+
+// vfMarkIndex is the position in the publish sequence encoded in a delivered marker ("V2", "F0";
+// only valid messages are ever delivered, and their kinds are one letter).
+func vfMarkIndex(mark string) int {
+	if len(mark) < 2 {
+		return -1
+	}
+	n, err := strconv.Atoi(mark[1:])
+	if err != nil {
+		return -1
+	}
+	return n
 }
